@@ -27,6 +27,8 @@ def shapes(p, rng, quick):
     c = a5.lonlat_to_cell((5.0, 5.0), 7)
     S.append(["uncompact", ["%016x" % c, "%016x" % ser.cell_to_parent(c)], 8])
     S.append(["cell_to_children", "%016x" % c, 9])
+    S.append(["u64_to_hex", "1a2b3c4d00000001"])
+    S.append(["u64_to_hex", "%016x" % c])
     # regression pair of the fixed finding (module-level scratch vectors): lonlat_to_cell((12.3, 45.6), 9) is place 0
     S.append(["cell_to_boundary", "2a2a000000000000", None])
     if not quick:
